@@ -3179,6 +3179,8 @@ READS_OWN = {"Ownable": {"ledger_sequence": "u32", "min_temp_ttl": "u32", "max_t
 FILES_OWN = [("Ownable", "packages/access/src/role_transfer/storage.rs", ["transfer_role", "accept_transfer"]),
              ("Ownable", "packages/access/src/ownable/storage.rs",
               ["get_owner", "enforce_owner_auth", "transfer_ownership", "accept_ownership", "renounce_ownership"])]
+STORE_SEQ = {"Sequential": {"TokenIdCounter": ([], "u32")}}
+FILES_SEQ = [("Sequential", "packages/tokens/src/non_fungible/utils/sequential/storage.rs", ["next_token_id", "increment_token_id"])]
 STORE_ADM = {"AccessAdmin": {"PendingAdmin": ([], "Address", "temp"), "Admin": ([], "Address")}}
 READS_ADM = {"AccessAdmin": {"ledger_sequence": "u32", "min_temp_ttl": "u32", "max_ttl": "u32", "authorized": "addr2bool"}}
 FILES_ADM = [("AccessAdmin", "packages/access/src/role_transfer/storage.rs", ["transfer_role", "accept_transfer"]),
@@ -3868,6 +3870,8 @@ def main():
             txt = translate(repo, FILES_CTIF, reads={"TopicsF": {}}, store=STORE_CTIF)
         elif "--topics" in sys.argv:
             txt = translate(repo, FILES_CTI, reads={"Topics": {}}, store=STORE_CTI)
+        elif "--sequential" in sys.argv:
+            txt = translate(repo, FILES_SEQ, reads={"Sequential": {}}, store=STORE_SEQ)
         elif "--access-admin" in sys.argv:
             txt = translate(repo, FILES_ADM, imports=("OZ.Model.RustSemHost",), reads=READS_ADM, store=STORE_ADM,
                             tymaps={"packages/access/src/role_transfer/storage.rs": {"T": "Key!", "U": "Key!"}},
